@@ -1,4 +1,5 @@
 import BppProofs.Lemmas.Hmm
+import BppProofs.Lemmas.HmmCache
 /-!
 # C13 — HMM likelihood algorithms   (src/Bpp/Numeric/Hmm)
 
@@ -92,6 +93,88 @@ theorem logsum_eq (p : Params ℝ) (hn : 0 < p.n) (hp : PosP p) (e0 : Emis ℝ) 
     (sites : List (Site ℝ)) (hs : PosS sites) :
     (logForward p e0 sites).ll = Real.log (pathSum p e0 sites) := by
   rw [logForward_ll p hn hp e0 he0 sites hs, fwdU_eq_pathSum]
+
+/-! ## Posterior probabilities (rescaled class) -/
+
+/-- For break points in `1 … T-1` (strictly increasing) and data of positive probability, every
+row of `getHiddenStatesPosteriorProbabilities` — there is one per position — is a probability
+vector over the `n` hidden states: entries ≥ 0, sum = 1. -/
+theorem posterior_prob (p : Params ℝ) (hp : NonNegP p) (e0 : Emis ℝ) (he0 : NonNegE e0)
+    (es : List (Emis ℝ)) (hes : ∀ e ∈ es, NonNegE e) (bps : List Nat) (hv : ValidBreaks (es.length + 1) bps)
+    (hpos : ∀ c ∈ (rescForward p e0 (mkSites es bps)).scales, 0 < c) :
+    (rescPosterior p e0 es bps).length = es.length + 1
+    ∧ ∀ row ∈ rescPosterior p e0 es bps, (∀ x ∈ row, 0 ≤ x) ∧ row.sum = 1 ∧ row.length = p.n :=
+  rescPosterior_prob p hp e0 he0 es hes bps hv hpos
+
+/-- per-position likelihoods are consistent with the posteriors: `getLikelihoodForASite` is the
+posterior-weighted mean `Σ_j post(j)·e(j)` of the emissions, hence lies between the smallest and
+the largest emission probability of that position -/
+theorem site_likelihood_consistent (p : Params ℝ) (hp : NonNegP p) (e0 : Emis ℝ) (he0 : NonNegE e0)
+    (es : List (Emis ℝ)) (hes : ∀ e ∈ es, NonNegE e) (bps : List Nat) (hv : ValidBreaks (es.length + 1) bps)
+    (hpos : ∀ c ∈ (rescForward p e0 (mkSites es bps)).scales, 0 < c)
+    (row : List ℝ) (hrow : row ∈ rescPosterior p e0 es bps) (e : Emis ℝ) (lo hi : ℝ)
+    (he : ∀ j, j < p.n → lo ≤ e j ∧ e j ≤ hi) :
+    siteLik p row e = ((List.zipWith (fun x y => x * y) row (vec p.n e)).sum) ∧ lo ≤ siteLik p row e ∧ siteLik p row e ≤ hi := by
+  obtain ⟨h1, h2, h3⟩ := (posterior_prob p hp e0 he0 es hes bps hv hpos).2 row hrow
+  exact ⟨by unfold siteLik dot; rw [sumL_eq_sum], siteLik_bounds p row h3 h1 h2 e lo hi he⟩
+
+/-- outside that domain the code does not validate its argument: for the break-point vector `[0]`
+on three positions the forward pass resets at position 1 while the backward pass never resets
+(recorded finding C13-invalid-breaks) -/
+theorem invalid_breaks_flags_witness :
+    fwdFlags 3 2 1 [0] = [true, false] ∧ (bwdFlags 2 [0].reverse).reverse = [false, false] := by decide
+
+/-! ## History independence of the cached objects
+
+`RescObj.run` / `LogObj.run` / `LowObj.run` execute any sequence of parameter updates, break-point
+changes and queries on the cached object; `…SpecRun` answers every query from scratch with the
+current tables (`rescSpec` = what a freshly built object answers).  The statements are generic in
+the scalar type: they also hold for the `Float` instance the driver runs. -/
+
+/-- rescaled class: in every history in which no call raised, each answer (log-likelihood,
+posterior matrix, first derivative) is the answer of a fresh object with the current parameter
+values and break points.  (`d1 ""` is excluded: the empty name is the cache's "nothing cached" marker.) -/
+theorem history_independent {α : Type} [Scalar α] (t : Tables α) (o : RescObj α) (hb : RescObj.build t = some o)
+    (ops : List (Op α)) (hne : ∀ a ∈ o.run ops, a ≠ Ans.exc) (hvar : ∀ op ∈ ops, op ≠ Op.d1 "") :
+    o.run ops = rescSpecRun t [] ops := by
+  obtain ⟨hc, ht, hbp⟩ := RescObj.build_consistent t o hb
+  rw [RescObj.run_spec o hc ops hne hvar, ht, hbp]
+
+/-- log-sum class (log-likelihood and posteriors; its derivatives are not modelled) -/
+theorem history_independent_logsum {α : Type} [Scalar α] (t : Tables α) (ops : List (Op α)) :
+    (LogObj.build t).run ops = logSpecRun t [] ops := by
+  obtain ⟨hc, ht, hbp⟩ := LogObj.build_consistent t
+  rw [LogObj.run_spec _ hc ops, ht, hbp]
+
+/-- low-memory class -/
+theorem history_independent_lowmem {α : Type} [Scalar α] (t : Tables α) (maxSize : Nat) (o : LowObj α)
+    (hb : LowObj.build t maxSize = some o)
+    (ops : List (Op α)) (hne : ∀ a ∈ o.run ops, a ≠ Ans.exc) (hvar : ∀ op ∈ ops, op ≠ Op.d1 "") :
+    o.run ops = lowSpecRun t maxSize [] ops := by
+  unfold LowObj.build at hb
+  split at hb
+  · cases hb
+  · have := Option.some.inj hb; subst this
+    exact LowObj.run_spec _ rfl rfl ops hne hvar
+
+/-- the hypothesis "no call raised" cannot be dropped: after an update that raised (negative
+transition probability) the rescaled object keeps answering the old log-likelihood -/
+theorem history_dependent_after_exception :
+    let t0 : Tables Rat := { p := { n := 1, P := fun _ _ => 1, pi := fun _ => 1 }, e0 := fun _ => 1 / 2, es := [], dE := fun _ => (fun _ => 0, []) }
+    let t1 : Tables Rat := { t0 with p := { n := 1, P := fun _ _ => -1, pi := fun _ => 1 } }
+    ∃ o, RescObj.build t0 = some o ∧ (o.step (.setTables t1)).2 = Ans.exc
+      ∧ ((o.step (.setTables t1)).1.step .logLik).2 = (o.step .logLik).2
+      ∧ (RescObj.build t1).isNone = true := by
+  intro t0 t1
+  have h0 : transOk t0.p = true := by decide
+  have h1 : transOk t1.p = false := by decide
+  have hb0 : rescCompute t0 [] = some (rescForward t0.p t0.e0 (mkSites t0.es [])) := by simp [rescCompute, h0]
+  have hb1 : ∀ bps, rescCompute t1 bps = none := by intro bps; simp [rescCompute, h1]
+  refine ⟨(RescObj.mk t0 [] (rescForward t0.p t0.e0 (mkSites t0.es [])) [] false "" emptyD),
+    by simp only [RescObj.build, hb0, Option.map_some], ?_, ?_, ?_⟩
+  · simp only [RescObj.step, hb1]
+  · simp only [RescObj.step, hb1]
+  · simp only [RescObj.build, hb1, Option.map_none, Option.isNone_none]
 
 /-! ## Non-vacuity -/
 
